@@ -161,7 +161,7 @@ func twoFanUnits(tier string) []engine.Unit {
 	for _, c := range cases {
 		c := c
 		c.Name = "two-fan-outs: " + c.String()
-		us = append(us, engine.Unit{Name: c.Name, Run: func(r *engine.Rec) {
+		us = append(us, engine.Unit{Name: c.Name, Early: true, Run: func(r *engine.Rec) {
 			o := schedx.Opts{Name: c.Name, Desc: c.String(), SigPrefix: "two fan-outs: ", CapA: 60000, Bounds: []int{0, 1}, CapB: 30000}
 			if r.Tier == "thorough" {
 				o.CapA, o.Bounds, o.CapB = 2000000, []int{0, 1, 2}, 1000000
